@@ -361,6 +361,7 @@ func report(w *World, units []*unitRun, prop, tier, verif string, t0 time.Time, 
 	backends := map[string]int{}
 	var solverMs int64
 	machineryErr := false
+	uncontracted := map[string][]string{}
 	for _, u := range units {
 		if u.Fc.Trusted != "" {
 			trusted = append(trusted, u.Unit+": "+u.Fc.Trusted)
@@ -378,6 +379,10 @@ func report(w *World, units []*unitRun, prop, tier, verif string, t0 time.Time, 
 		if len(u.Results) == 0 {
 			fmt.Fprintf(os.Stderr, "govc: ERROR %s generated no obligations\n", u.Unit)
 			machineryErr = true
+		}
+		if len(u.G.uncontracted) > 0 {
+			fmt.Fprintf(os.Stderr, "govc: NOTE %s calls %v which have no contract: over-approximated (may modify anything, return anything)\n", u.Unit, u.G.uncontracted)
+			uncontracted[u.Unit] = u.G.uncontracted
 		}
 		postSeen := map[string]bool{}
 		var vacuous []*Result
@@ -460,6 +465,10 @@ func report(w *World, units []*unitRun, prop, tier, verif string, t0 time.Time, 
 			rep := map[string]any{
 				"property": prop, "unit": r.Ob.Unit, "obligation": r.Ob.Name, "kind": r.Ob.Kind, "clause": r.Ob.Desc,
 				"position": r.Ob.Pos, "status": r.Status, "backend": r.Backend, "solver_output": truncate(r.Output, 4000), "model": r.Model,
+			}
+			if uc := uncontracted[strings.SplitN(r.Ob.Unit, "[", 2)[0]]; len(uc) > 0 {
+				rep["uncontracted_callees"] = uc
+				rep["note"] = "the function calls callees that have no contract; they were over-approximated (may modify anything, return anything)"
 			}
 			suffix := ""
 			reproduced := false
